@@ -11,7 +11,7 @@ from .common import Driver
 
 THEOREM_MODULES = ["PygacModel.Theorems.C16"]
 RULE = ("histories of coefficient requests mixing all spacecraft of the shipped file, three files (shipped, byte-identical "
-        "copy, perturbed copy) and custom overrides of 0-3 top-level keys; every result (all namedtuple fields, version) "
+        "copy, two differently perturbed copies) and custom overrides of 0-3 top-level keys; every result (all namedtuple fields, version) "
         "compared with the pure function of (spacecraft, custom, file content) and with the Lean model's source map; the "
         "class-level defaults are compared with the file after every history. A case = one request in a history; "
         "non-trivial = the request differs from the previous one in file, spacecraft or custom set; distinct by "
@@ -70,10 +70,15 @@ def run(ctx):
     p2 = os.path.join(d, "perturbed.json")
     with open(p2, "w") as fh:
         json.dump(table2, fh)
-    tables = {0: table0, 1: json.loads(content), 2: table2}
-    paths = {0: None, 1: p1, 2: p2}
+    # a second unrecognised file with other content (both have no version name)
+    table3 = perturb(perturb(copy.deepcopy(table0), rng), rng)
+    p3 = os.path.join(d, "perturbed2.json")
+    with open(p3, "w") as fh:
+        json.dump(table3, fh)
+    tables = {0: table0, 1: json.loads(content), 2: table2, 3: table3}
+    paths = {0: None, 1: p1, 2: p2, 3: p3}
     known = Calibrator.version_hashs.get(__import__("hashlib").md5(content).hexdigest(), {}).get("name")
-    versions = {0: known, 1: known, 2: None}
+    versions = {0: known, 1: known, 2: None, 3: None}
     if known != "PATMOS-x, v2023":
         ctx.violation("the shipped coefficient file is not recognised as 'PATMOS-x, v2023' (version %r)" % (known,), {}, cls="version-shipped")
     sats = sorted(s for s in table0 if isinstance(table0[s], dict) and "channel_1" in table0[s])
@@ -102,7 +107,7 @@ def run(ctx):
             live_shared = copy.deepcopy(shared)
             for i in range(length):
                 sat = focus_sat if rng.random() < 0.6 else rng.choice(sats)
-                f = rng.choice([0, 0, 1, 2]) if rng.random() < 0.5 and prev else (prev[1] if prev else rng.choice([0, 1, 2]))
+                f = rng.choice([0, 0, 1, 2, 3, 3]) if rng.random() < 0.5 and prev else (prev[1] if prev else rng.choice([0, 1, 2, 3]))
                 keys = list(tables[f][sat].keys())
                 nc = rng.choice([0, 0, 1, 2, 3])
                 ck = sorted(rng.sample(range(len(keys)), min(nc, len(keys))))
@@ -154,7 +159,7 @@ def run(ctx):
                 src = []
                 for k, key in enumerate(keys):
                     probe = {}
-                    for cand, lab in [(custom.get(key, None), "C")] + [(tables[g][sat][key], str(g)) for g in (f, 0, 1, 2)]:
+                    for cand, lab in [(custom.get(key, None), "C")] + [(tables[g][sat][key], str(g)) for g in (f, 0, 1, 2, 3)]:
                         if cand is None:
                             continue
                         m2 = dict(merged)
